@@ -15,14 +15,17 @@ child key = (parse256(I_L) + k) mod n (polynomial normal form), chain code = I_R
 I_L < n and child key != 0. CKDpub: every i >= 2^31 raises (exact interval set of accepted indices), I over
 serP(K) || ser32(i), child = point(I_L) + K, chain code I_R, I_L < n; sibling agreement: CKDpub's HMAC input equals
 CKDpriv's non-hardened input with point(k) := K. to_master_key: HMAC-SHA512('Bitcoin seed', seed), 0 < I_L < n.
-[LAYOUT/TYPE] serialized_extended_key over the modes (key int / point) x (testnet) x (depth int / bytes) x (child_no int /
-bytes): version(4) || depth(1) || fingerprint(4) || child number(4) || chain code(32) || (00 || ser256(k) | serP(K)),
-Base58Check; an integer child number is serialised from child_no itself. [DECISION-TABLE] deserialized_extended_key
+[LAYOUT/TYPE] serialized_extended_key on typed arguments, modes (key int / pair of ints) x (testnet) x (depth int / bytes) x
+(child_no int / bytes): version(4) || depth(1) || fingerprint(4) || child number(4) || chain code(32) || (00 || ser256(k) | serP(K)),
+Base58Check; an integer child number is serialised from child_no itself; other key types refused; the root key through the real
+serializer (depth 0, zero fingerprint, zero child number). [DECISION-TABLE] deserialized_extended_key
 over representatives of (length, version, depth, fingerprint, child number, key prefix): accepted exactly when BIP32
 allows, the key going through the curve-checked SEC1 decoder / privkey_int; slices tile the 78 bytes.
 [TERM/THREAD] derive_from_path per step: depth = parent depth + 1, fingerprint = HASH160(serP(parent public key))[:4],
 child number 4 bytes big-endian with +2^31 for ', each step's parent is the previous step's result, m/ <-> private
-versions and CKDpriv, M/ <-> public versions and CKDpub, network flag from the version. get_xpub. [TABLE] constants.
+versions and CKDpriv, M/ <-> public versions and CKDpub, network flag from the version -- compared on concrete paths modulo
+deserialize(serialize(fields)) = fields, so re-parsing each child and carrying the decoded parent along are one term. get_xpub on
+the four kinds of decoded key (scripted decoder result). [TABLE] constants.
 """
 NOT_DECIDED = ("public/private commutation itself (it is the group-law identity (I_L + k)G = I_L G + kG) and agreement with an "
                "independent implementation: decided only through the sibling terms and C03's structural obligations")
@@ -168,6 +171,9 @@ def run(ctx):
     c03.check_privkey_int(ctx, "C09.7")
     c14.check_point_decoder(ctx, "C09.7")
     c03.check_scalar_mul(ctx, "C09.7")
+    c03.check_helpers(ctx, "C09.7")
+    from . import c07
+    c07.check_base58(ctx, lambda k: "C09.8")  # extended keys are Base58Check strings (shared with C07)
 
 
 def check_serialize(ctx):
@@ -207,6 +213,25 @@ def check_serialize(ctx):
                 example="an integer child number (it must be serialised from child_no, 4 bytes big-endian)")
         n += 1
     R.floor("C09.4", n, 16, "xkey_serialisation_modes")
+    # every field combination BIP32 allows is serialised (no refusal of a legal key): concrete depth / fingerprint / child
+    # number, arbitrary key and chain code; a guard the combination does not decide leaves the case undecided, which is reported
+    combos = [(0, b"\x00" * 4, 0), (1, b"\x00" * 4, 0), (1, b"\x00" * 4, 7), (1, b"\x12\x34\x56\x78", 0), (3, b"\x00\x00\x00\x01", 2 ** 31),
+              (255, b"\xff" * 4, 2 ** 32 - 1), (2, b"\x00" * 4, 2 ** 31 + 5)]
+    bad = []
+    for key_int, as_int in itertools.product((True, False), repeat=2):
+        key = P("key", tm.INT) if key_int else (P("Kx", tm.INT), P("Ky", tm.INT))
+        for d, f, c in combos:
+            dv, cv = (d, c) if as_int else (bytes([d]), c.to_bytes(4, "big"))
+            s = ev.run(fi, {"key": key, "chaincode": chain, "depth": dv, "parent_key_fingerprint": f, "child_no": cv, "testnet": False})
+            kind, val = rules.strict_outcome(s)
+            got = payload_of(val, kind)
+            head = tm.cat([(VPRV_M if key_int else VPUB_M) + bytes([d]) + f + c.to_bytes(4, "big"), chain])
+            ok = isinstance(got, T) and got.op == "cat" and tm.veq(tm.cat(list(got.args[:2])), head) and key_ok(tm.cat(list(got.args[2:])), key_int, key)
+            if not ok:
+                bad.append("depth %d, parent fingerprint %s, child number %d (%s key, fields as %s): %s" % (
+                    d, f.hex(), c, "private" if key_int else "public", "int" if as_int else "bytes", kind if kind != "return" else "wrong payload %s" % tm.show(got)[:80]))
+    R.check("C09.4", "DECISION-TABLE", fi, "every legal (depth, parent fingerprint, child number) combination is serialised: %d cases incl. depth >= 1 with a zero fingerprint" % (len(combos) * 4), not bad,
+            "serialized_extended_key does not serialise a legal key: %s" % (bad[0] if bad else ""), example=bad[0] if bad else None)
     # something that is neither an int nor a pair is refused
     for label, key in (("a 3-tuple", (P("a", tm.INT), P("b", tm.INT), P("c", tm.INT))), ("a bytes key", P("key", tm.BYTES))):
         s = ev.run(fi, {"key": key, "chaincode": chain, "depth": P("depth", tm.INT), "parent_key_fingerprint": fpr, "child_no": P("child_no", tm.INT), "testnet": False})
